@@ -25,6 +25,7 @@ import (
 	"go.uber.org/zap/zapcore"
 
 	"pdverif/internal/coqfmt"
+	"pdverif/internal/dclife"
 	"pdverif/internal/etcdx"
 	_ "pdverif/internal/quiet"
 	"pdverif/internal/res"
@@ -978,6 +979,117 @@ func lateKeepAliveProbe(R *res.Result, prop string) {
 	}
 }
 
+// delayedWindowWriteProbe: etcd may be slow for any single request. A window write the periodic update issues is held
+// back before it is sent. On the code as it is the update is still inside its call then (it holds the save mutex), so a
+// reset has to wait. If the update has RETURNED while its write is still on its way (a write issued outside the call
+// that decided it), the probe lets an operator reset (+1 h) be accepted and persisted first and the late write land
+// afterwards: the stored window must not decrease, and a successor must start above everything granted.
+func delayedWindowWriteProbe(e *etcdx.Etcd, admin *clientv3.Client, root string, R *res.Result, prop string) {
+	w := &world{e: e, admin: admin, root: root}
+	defer e.CloseFrom(e.Mark())
+	w.mems = append(w.mems, w.newMember(0), w.newMember(1))
+	a, b := w.mems[0], w.mems[1]
+	if err := a.m.CampaignLeader(60); err != nil {
+		return
+	}
+	if err := a.alloc.Initialize(0); err != nil {
+		return
+	}
+	defer a.am.ResetAllocatorGroup(tso.GlobalDCLocation)
+	defer b.am.ResetAllocatorGroup(tso.GlobalDCLocation)
+	isWindowPut := func(ops []clientv3.Op) bool {
+		for _, o := range ops {
+			if o.IsPut() && strings.HasSuffix(string(o.KeyBytes()), "/timestamp") {
+				return true
+			}
+		}
+		return false
+	}
+	a.ctl.Filter = isWindowPut
+	defer func() { a.ctl.Filter = nil; a.ctl.SetNext(etcdx.Pass) }()
+	for round := 0; round < 18; round++ {
+		if _, err := a.alloc.GenerateTSO(1); err != nil {
+			return
+		}
+		// a fresh window first (an update whose write is due and goes through), then an update after 40 % .. 120 % of
+		// the save interval: rounds differ in how much of the window is used up (a write may be issued early)
+		time.Sleep(saveInterval)
+		a.ctl.SetNext(etcdx.Pass)
+		if err := w.safe("UpdateTSO", a.alloc.UpdateTSO); err != nil {
+			return
+		}
+		time.Sleep(saveInterval * time.Duration(4+round%9) / 10)
+		a.ctl.SetNext(etcdx.Park)
+		done := make(chan error, 1)
+		go func() { done <- w.safe("UpdateTSO", a.alloc.UpdateTSO) }()
+		parked := false
+		select {
+		case <-a.ctl.Parked():
+			parked = true
+		case <-done:
+			// no write was due in this round - or it is on its way in the background: give it a moment
+			select {
+			case <-a.ctl.Parked():
+				parked = true
+				done <- nil
+			case <-time.After(30 * time.Millisecond):
+				a.ctl.SetNext(etcdx.Pass)
+				continue
+			}
+		case <-time.After(5 * time.Second):
+			return
+		}
+		if !parked {
+			continue
+		}
+		returned := false
+		select {
+		case <-done:
+			returned = true
+		case <-time.After(300 * time.Millisecond):
+		}
+		R.Count("delayed-window-write:probed")
+		if !returned {
+			a.ctl.Release(etcdx.Pass) // the update waits for its own write, as it should
+			<-done
+			continue
+		}
+		// the update is back, its write is not: reset one hour ahead, then let the late write through
+		target := time.Now().UnixNano()/1e6 + 3600*1000
+		if err := a.alloc.SetTSO(compose(target, 0)); err != nil {
+			a.ctl.Release(etcdx.Pass)
+			return
+		}
+		w1 := w.window()
+		g, gerr := a.alloc.GenerateTSO(1)
+		a.ctl.Release(etcdx.Pass)
+		time.Sleep(200 * time.Millisecond)
+		w2 := w.window()
+		if w1 != nil && w2 != nil && *w2 < *w1 {
+			R.Violate(prop+":stored-window-decreased:window-write-outside-the-call-that-decided-it",
+				fmt.Sprintf("UpdateTSO returned while its window write was still on its way (held back before it was sent); a reset one hour ahead was accepted and stored the window %d; the late write then stored %d", *w1, *w2),
+				map[string]interface{}{"window_after_reset": *w1, "window_after_late_write": *w2, "scenario": "Elect; Sync; Gen; sleep; UpdateTSO with its window write held back; SetTSO(+1h); write released"})
+		}
+		a.am.ResetAllocatorGroup(tso.GlobalDCLocation)
+		a.m.ResetLeader()
+		if gerr != nil {
+			return
+		}
+		if err := b.m.CampaignLeader(60); err != nil {
+			return
+		}
+		if err := b.alloc.Initialize(0); err != nil {
+			return
+		}
+		if t, err := b.alloc.GenerateTSO(1); err == nil && (t.Physical < g.Physical || (t.Physical == g.Physical && t.Logical <= g.Logical)) {
+			R.Violate(prop+":successor-below-granted-timestamp:window-write-outside-the-call-that-decided-it",
+				fmt.Sprintf("after that history member 0 had granted (%d,%d); its successor starts at (%d,%d)", g.Physical, g.Logical, t.Physical, t.Logical),
+				map[string]interface{}{"granted": []int64{g.Physical, g.Logical}, "successor": []int64{t.Physical, t.Logical}})
+		}
+		return
+	}
+}
+
 // raceReset: a reset into the current millisecond whose check-to-write span is stretched by a parked window save, while
 // requests keep arriving. With the TSO lock held over the whole reset the requests simply wait; if the reset validates and
 // writes under different lock sections, its write lands on top of timestamps granted in between. Checked on the Go side:
@@ -1073,13 +1185,22 @@ func serverPhase(R *res.Result, prop string, dur time.Duration) {
 	type ans struct{ P, L, Begin, End int64 }
 	var mu sync.Mutex
 	var all []ans
+	abandoned := 0
+	stuck := false
 	run := func(d time.Duration) {
 		cli, err := pd.NewClient([]string{cfg.ClientUrls}, pd.SecurityOption{})
 		if err != nil {
 			R.Notes = append(R.Notes, "pd client: "+err.Error())
 			return
 		}
-		defer cli.Close()
+		defer func() {
+			closed := make(chan struct{})
+			go func() { cli.Close(); close(closed) }()
+			select {
+			case <-closed:
+			case <-time.After(10 * time.Second):
+			}
+		}()
 		stop := time.Now().Add(d)
 		var wg sync.WaitGroup
 		for k := 0; k < 6; k++ {
@@ -1099,7 +1220,49 @@ func serverPhase(R *res.Result, prop string, dur time.Duration) {
 				}
 			}()
 		}
-		wg.Wait()
+		// one more caller whose requests are often abandoned while in flight (contexts that end after 20-500 us): what
+		// it and the others receive afterwards is checked like every other answer
+		wg.Add(1)
+		go func() {
+			defer wg.Done()
+			k := 0
+			for time.Now().Before(stop) {
+				k++
+				b := time.Now().UnixNano()
+				ctx, cancel := context.WithTimeout(context.Background(), time.Duration(20+(k*37)%480)*time.Microsecond)
+				p, l, err := cli.GetTS(ctx)
+				cancel()
+				mu.Lock()
+				if err == nil {
+					all = append(all, ans{p, l, b, time.Now().UnixNano()})
+				} else {
+					abandoned++
+				}
+				mu.Unlock()
+				// a few ordinary calls right after an abandoned one
+				for j := 0; j < 3 && err != nil; j++ {
+					b := time.Now().UnixNano()
+					ctx, cancel := context.WithTimeout(context.Background(), 3*time.Second)
+					p, l, err2 := cli.GetTS(ctx)
+					cancel()
+					if err2 == nil {
+						mu.Lock()
+						all = append(all, ans{p, l, b, time.Now().UnixNano()})
+						mu.Unlock()
+					}
+				}
+			}
+		}()
+		waited := make(chan struct{})
+		go func() { wg.Wait(); close(waited) }()
+		select {
+		case <-waited:
+		case <-time.After(d + 20*time.Second):
+			// callers that never return (every call carries a time-out of its own): give up on them, judge what was answered
+			mu.Lock()
+			stuck = true
+			mu.Unlock()
+		}
 	}
 	run(dur / 2)
 	// admin reset 3 s ahead through the handler (what pd-ctl `tso reset` does)
@@ -1116,8 +1279,11 @@ func serverPhase(R *res.Result, prop string, dur time.Duration) {
 	}
 	run(dur / 4)
 	x2.Close()
+	mu.Lock()
+	snap := append([]ans(nil), all...) // callers that were given up on may still be appending to `all`
+	mu.Unlock()
 	seen := map[[2]int64]bool{}
-	for _, a := range all {
+	for _, a := range snap {
 		k := [2]int64{a.P, a.L}
 		if seen[k] {
 			R.Violate(prop+":duplicate-timestamp:real-server", fmt.Sprintf("the timestamp (%d,%d) was handed out twice by a real server / real client", a.P, a.L), a)
@@ -1125,23 +1291,28 @@ func serverPhase(R *res.Result, prop string, dur time.Duration) {
 		seen[k] = true
 	}
 	// real-time order, on a bounded sample sorted by begin
-	n := len(all)
+	n := len(snap)
 	if n > 6000 {
 		n = 6000
 	}
 	for i := 0; i < n; i++ {
 		for j := 0; j < n; j++ {
-			a, b := all[i], all[j]
+			a, b := snap[i], snap[j]
 			if a.End < b.Begin && (a.P > b.P || (a.P == b.P && a.L >= b.L)) {
 				R.Violate(prop+":timestamp-went-back:real-server", fmt.Sprintf("a call that began after (%d,%d) had been returned got (%d,%d)", a.P, a.L, b.P, b.L),
 					map[string]interface{}{"earlier": a, "later": b})
 			}
 		}
 	}
-	R.CountN("server:answers", len(all))
+	R.CountN("server:answers", len(snap))
+	R.CountN("server:abandoned-requests", abandoned)
+	if stuck {
+		R.Notes = append(R.Notes, "server phase: some client calls never returned although each carries a time-out; the answers received until then were judged")
+		R.Count("server:callers-stuck")
+	}
 }
 
-// localBurstProbe: a real server with Local TSO (one dc-location, suffix width 1): bursts of 40000 timestamps are
+// localBurstProbe: a real server with Local TSO (suffix width 1, or 2 after the life-cycle history below added dc-locations): bursts of 40000 timestamps are
 // requested from the Local allocator inside one physical tick. Every answer's logical part (suffix included) must fit
 // the 18-bit field, and the composed 64-bit values must keep increasing; the allocator may refuse instead.
 func localBurstProbe(R *res.Result, prop string) {
@@ -1151,7 +1322,7 @@ func localBurstProbe(R *res.Result, prop string) {
 	}
 	cfg.EnableLocalTSO = true
 	cfg.Labels = map[string]string{config.ZoneLabel: "dc-1"}
-	cfg.TSOUpdatePhysicalInterval = typeutil.NewDuration(10 * time.Second)
+	cfg.TSOUpdatePhysicalInterval = typeutil.NewDuration(time.Second)
 	x, err := srv15.StartWith(cfg)
 	if err != nil {
 		R.Notes = append(R.Notes, "local burst probe skipped: "+err.Error())
@@ -1171,6 +1342,30 @@ func localBurstProbe(R *res.Result, prop string) {
 			return
 		}
 		time.Sleep(50 * time.Millisecond)
+	}
+	// a dc-location whose members all leave and which comes back: the returning allocator continues above what it
+	// granted, and the stored window of the dc-location never goes back (nor away)
+	if o := dclife.LeaveAndReturn(x.S, "dc-life", 525252, "dc-late", 535353); o.Skipped != "" {
+		R.Notes = append(R.Notes, "dc-location life-cycle probe incomplete: "+o.Skipped)
+	} else {
+		R.Count("dc-life:probed")
+		wv := func(p *uint64) string {
+			if p == nil {
+				return "absent"
+			}
+			return fmt.Sprint(*p)
+		}
+		lost := func(p *uint64) bool { return o.WinBefore != nil && (p == nil || *p < *o.WinBefore) }
+		if lost(o.WinWhileAway) || lost(o.WinAfter) {
+			R.Violate(prop+":stored-window-decreased:dc-location-left-and-returned",
+				fmt.Sprintf("the Local allocator of dc-life had stored the window %s; after all members of the dc-location were removed the key is %s, after the dc-location returned %s", wv(o.WinBefore), wv(o.WinWhileAway), wv(o.WinAfter)),
+				map[string]interface{}{"before": wv(o.WinBefore), "away": wv(o.WinWhileAway), "after": wv(o.WinAfter)})
+		}
+		if o.TSAfter.Physical < o.TSBefore.Physical || (o.TSAfter.Physical == o.TSBefore.Physical && o.TSAfter.Logical <= o.TSBefore.Logical) {
+			R.Violate(prop+":timestamp-went-back:dc-location-left-and-returned",
+				fmt.Sprintf("the Local allocator of dc-life answered (%d,%d), lost all its members, came back and answered (%d,%d)", o.TSBefore.Physical, o.TSBefore.Logical, o.TSAfter.Physical, o.TSAfter.Logical),
+				map[string]interface{}{"before": []int64{o.TSBefore.Physical, o.TSBefore.Logical}, "after": []int64{o.TSAfter.Physical, o.TSAfter.Logical}})
+		}
 	}
 	var last uint64
 	for k := 0; k < 5; k++ {
@@ -1330,6 +1525,7 @@ func main() {
 					raceReset(e, admin, fmt.Sprintf("/c01/race%d", k), R, *prop)
 				}
 				overflowRace(e, admin, "/c01/overflow", R, *prop)
+				delayedWindowWriteProbe(e, admin, "/c01/delayed/r", R, *prop)
 			}
 			e.Close()
 		}
